@@ -5,6 +5,8 @@ import (
 	"fmt"
 	"strings"
 	"time"
+
+	"github.com/buildbuildio/pebbles/planner"
 )
 
 // Race complement pass of the schedule-exploring checks (DESIGN §4.4).  The explorer of Engine B
@@ -27,7 +29,16 @@ var racePool = []string{
 	"{ v { w { b } } }",   // the call carrying this one fails at transport level
 	"query A { echo } query B { echo }",
 	"{ __typename n1s { id } }",
+	"{ __typename v { w { b } } }", // gateway-answered field next to a failing service field
+	// operations without a variables object whose variables have defaults of their own
+	"query ($a: Int = 5) { echo(x: $a) }",
+	"query ($a: Int = 8) { echo(x: $a) }",
+	"query ($a: Int) { echo(x: $a) }",
 }
+
+// raceRefOps are answered without faults: what they receive alone is known from the reference model
+// (and not only from this gateway, whose earlier requests may have left something behind)
+var raceRefOps = map[string]bool{"query ($a: Int = 5) { echo(x: $a) }": true, "query ($a: Int = 8) { echo(x: $a) }": true, "query ($a: Int) { echo(x: $a) }": true}
 
 func raceFault(q string) *Fault {
 	nq := strings.Join(strings.Fields(q), " ")
@@ -41,18 +52,37 @@ func raceFault(q string) *Fault {
 }
 
 func init() {
+	// C07 (no request can crash the gateway): its enumeration runs one request at a time; the same
+	// harness bodies sent concurrently under the race detector are its complement (a data race on the
+	// request path is a crash waiting for its schedule: concurrent map writes are fatal errors)
+	Props["C07race"] = &Prop{
+		ID:    "C07",
+		Key:   "C07race",
+		Level: "other",
+		Rule: "race complement pass: client batches of length 2-3 over the operation pool of the C08 pass (one eighth of them) and over 5 operations through the caching planner at a 1 ms TTL (4 rounds 2 ms apart), " +
+			"through the real handler of a binary built with -race, free-running; the process survives, every batch is answered with an array of the right length and the race detector reports no data race with a frame in the code under test",
+		Assumptions: []string{"the race detector sees the interleavings the Go scheduler happens to produce in this run (a complement to, not part of, the exhaustive enumeration)"},
+		Jobs: func(tier string) []string {
+			return []string{"W0|e0c|raceexpiry#0/1", "W0|e0p|race#0/8", "W0|e0p|race#4/8"}
+		},
+		Budget: func(tier string) time.Duration { return 90 * time.Second },
+		RunJob: func(tier, job string, from int, em *Emitter) { Props["C08"].RunJob(tier, job, from, em) },
+	}
 	Props["C08"] = &Prop{
 		ID:    "C08",
 		Level: "other",
-		Rule: "race complement pass: every client batch of length 2 and a third of the batches of length 3 over an 11-operation pool (queries on either service, cross-service, a mutation, introspection, invalid, ambiguous, " +
+		Rule: "race complement pass: every client batch of length 2 and a fifth of the batches of length 3 over a 15-operation pool (queries on either service, cross-service, a mutation, introspection, invalid, ambiguous, root __typename next to a failing field, variables with defaults and no variables object, " +
 			"service errors, transport failure, root __typename), each sent 3 times through the real handler of a binary built with -race, free-running; result i must equal the single answer of operation i and the race " +
-			"detector must report no data race with a frame in the code under test; non-trivial = batch of >=2 operations",
+			"detector must report no data race with a frame in the code under test; the same with the caching planner at a 1 ms TTL (every batch of length 2-3 over 5 operations, 4 rounds 2 ms apart, so that concurrent planners meet expired entries); " +
+			"multipart batches with 100 kB files; non-trivial = batch of >=2 operations",
 		Assumptions: []string{"the race detector sees the interleavings the Go scheduler happens to produce in this run (a complement to, not part of, the exhaustive exploration)"},
 		Jobs: func(tier string) []string {
 			var jobs []string
 			for s := 0; s < 8; s++ {
 				jobs = append(jobs, fmt.Sprintf("W0|e0p|race#%d/8", s))
 			}
+			// the plan cache with entries expiring between the rounds (every round finds expired entries and plans concurrently)
+			jobs = append(jobs, "W0|e0c|raceexpiry#0/1")
 			// multipart batches: files of 100 kB used by one or by both operations
 			jobs = append(jobs, "W0+upload-roots+upload-second-service|e0p|raceuploads#0/1")
 			return jobs
@@ -72,16 +102,33 @@ func init() {
 				em.GenError(err.Error())
 				return
 			}
+			if strings.HasPrefix(opset, "raceexpiry") {
+				raceExpiry(f, wd, from, em)
+				return
+			}
 			if strings.HasPrefix(opset, "raceuploads") {
 				raceUploads(f, wd, from, em)
 				return
 			}
 			f.Fakes.FaultByQuery = raceFault
+			// the single answers are fetched inside the first case that needs them (a gateway
+			// that dies answering an operation alone is that case's crash)
 			single := map[string]string{}
-			for _, q := range racePool {
+			singleOf := func(q string) string {
+				if v, ok := single[q]; ok {
+					return v
+				}
 				f.Fakes.Reset()
 				_, b := f.Post(caseBody(Case{Q: q}), "application/json")
-				single[q] = canonJSON(b)
+				v := canonJSON(b)
+				if raceRefOps[q] {
+					if o := f.Run(Case{Q: q}); o.Valid && o.RefErr == "" {
+						rb, _ := json.Marshal(map[string]interface{}{"data": o.RefData})
+						v = canonJSON(rb)
+					}
+				}
+				single[q] = v
+				return v
 			}
 			var batches [][]string
 			for _, a := range racePool {
@@ -103,7 +150,7 @@ func init() {
 								muts++
 							}
 						}
-						if k%3 == 0 && muts <= 1 {
+						if k%5 == 0 && muts <= 1 {
 							batches = append(batches, []string{a, b, c})
 						}
 					}
@@ -128,6 +175,7 @@ func init() {
 				var list []json.RawMessage
 				for _, q := range bt {
 					list = append(list, caseBody(Case{Q: q}))
+					singleOf(q)
 				}
 				body, _ := json.Marshal(list)
 				set := map[string]bool{}
@@ -215,6 +263,69 @@ func raceUploads(f *Fed, wd WorldDesc, from int, em *Emitter) {
 				sigs = append(sigs, s)
 			}
 			em.Fail([]string{"race-pass", "uploads"}, sigs, rp)
+		}
+		em.Done(true)
+	}
+}
+
+// raceExpiry sends batches through a gateway whose plan cache expires after 1 ms, several rounds
+// 2 ms apart: the per-operation goroutines of a round plan at the same time and all of them meet
+// the expired entries of the round before.
+func raceExpiry(f *Fed, wd WorldDesc, from int, em *Emitter) {
+	pool := []string{"{ echo(x: 3) }", "{ n2 { title } }", "{ n1s { name phone } }", "{ n2 { owner { name } } }", "{ __typename n1s { id } }"}
+	single := map[string]string{}
+	for _, q := range pool {
+		f.Fakes.Reset()
+		_, b := f.Post(caseBody(Case{Q: q}), "application/json")
+		single[q] = canonJSON(b)
+	}
+	var batches [][]string
+	for _, a := range pool {
+		for _, b := range pool {
+			batches = append(batches, []string{a, b})
+			for _, c := range pool {
+				batches = append(batches, []string{a, b, c})
+			}
+		}
+	}
+	f.sp.inner = planner.NewCachedPlanner(time.Millisecond)
+	for idx, bt := range batches {
+		if idx < from {
+			continue
+		}
+		rp := map[string]interface{}{"world": wd.Name(), "batch": bt, "planner": "cached, ttl 1ms"}
+		if !em.Begin(idx, []string{"race-pass", "cache-expiry", fmt.Sprintf("len%d", len(bt))}, rp) {
+			if em.Capped() {
+				return
+			}
+			continue
+		}
+		var list []json.RawMessage
+		for _, q := range bt {
+			list = append(list, caseBody(Case{Q: q}))
+		}
+		body, _ := json.Marshal(list)
+		set := map[string]bool{}
+		for rep := 0; rep < 4; rep++ {
+			time.Sleep(2 * time.Millisecond)
+			f.Fakes.Reset()
+			_, rb := f.Post(body, "application/json")
+			var res []json.RawMessage
+			if err := json.Unmarshal(rb, &res); err != nil || len(res) != len(bt) {
+				set["batch not answered with an array of the right length"] = true
+				continue
+			}
+			for i, q := range bt {
+				if canonJSON(res[i]) != single[q] {
+					set["result at position i differs from the single-request answer of operation i"] = true
+				}
+			}
+		}
+		if len(set) > 0 {
+			em.Fail([]string{"race-pass", "cache-expiry"}, setToList(set), rp)
+		}
+		if idx%37 == 0 {
+			em.Sample(rp)
 		}
 		em.Done(true)
 	}
